@@ -15,7 +15,7 @@ I, B = z3.IntSort(), z3.BoolSort()
 TRUSTED = ["class hierarchy abstraction: issub reflexive/transitive; the domain of _ALL_DEFAULT_ARGS[c] = ancestors of c with an associated namespace class, monotone along issub (RenderableMeta builds it from the MRO; multiple inheritance of render classes is outside the model)",
            "dict / MappingProxyType semantics as modelled (copy creates a new mapping; update merges; equality is extensional)"]
 ASSUMPTIONS = []
-NOT_DECIDED = ["metaclass bodies that build classes (only their accept / reject decisions are covered, where a unit exists)"]
+NOT_DECIDED = ["what type.__new__ does with the class namespace the metaclasses hand it (slots, MRO); the metaclass bodies themselves are executed"]
 
 ISSUB = z3.Function("issub", I, I, B)
 DOM = z3.Function("in_default_args_domain", I, I, B)        # DOM(c, k): class k is a key of c._ALL_DEFAULT_ARGS
@@ -651,3 +651,125 @@ def u_ns_eq_hash(ctx):
         if "a" in hs and "b" in hs:
             eng.oblige("equal-namespaces-hash-equal", s, Implies(v_, hs["a"] == hs["b"]), kind="post")
     return eng.obligations
+
+
+# ------------------------------------------------------------------------------------------------ namespace classes: definition rules
+def ns_class_unit():
+    @unit("C16", "_types:ArgsNamespaceMeta.__new__+ArgsDataNamespaceMeta.__new__")
+    def u(ctx):
+        """Defining a render-argument namespace class: the real bodies of both metaclass `__new__`s are executed (type.__new__ is the
+        only callee under contract) for every combination of: one / two bases, a base with / without fields, associated / not, own
+        fields or none, every field with a default or one without, no render class / a render class without / with an argument
+        namespace already / something that is not a render class.  The definition is accepted exactly when it breaks none of the
+        documented rules, and an accepted association is recorded on both classes."""
+        import itertools as _it
+        obs = []
+        for n_bases, base_fields, base_assoc, own, all_defaults, rc in _it.product((1, 2), (False, True), (False, True), (False, True), (True, False),
+                                                                                  ("none", "fresh", "has-args", "not-a-class")):
+            if base_assoc and not base_fields:
+                continue            # an associated class has fields (data invariant established by this very function)
+            if not own and not all_defaults:
+                continue
+            tag = f"bases={n_bases},base-fields={base_fields},base-associated={base_assoc},own-fields={own},defaults={'all' if all_defaults else 'one-missing'},render_cls={rc}"
+            eng = ctx.engine(f"C16/namespace-class[{tag}]", "C16")
+            eng.default_replay = "C16.namespace_classes"
+            st = State()
+            eng.genv.update(UTIL_ERRS)
+            for exc, par in (("RenderArgsDataError", "RenderableError"), ("RenderArgsError", "RenderArgsDataError"), ("RenderableError", "Exception")):
+                eng.genv[exc] = ClassV(exc)
+                eng.exc_parents[exc] = par
+            eng.classes.update({"RenderableMeta": ()})
+            eng.genv["RenderableMeta"] = ClassV("RenderableMeta")
+            eng.genv["MappingProxyType"] = Fn(lambda e, s, a, k: [(a[0], s)])
+
+            def fromkeys(e, s, a, k):
+                s = e.fork(s)
+                return [(s.new("dict", {"@items": {n_: None for n_ in e.iter_concrete(a[0], s)}}), s)]
+            eng.genv["dict"] = Namespace("dict", {"fromkeys": Fn(fromkeys)})
+            sig = st.new("dict", {"@items": {"self": Opaque("parameter")}})
+            eng.genv["signature"] = Fn(lambda e, s, a, k: [(Rec("signature", {"parameters": sig}), s)])
+            eng.genv["Parameter"] = Namespace("Parameter", {"empty": Opaque("empty"), "VAR_POSITIONAL": 2, "VAR_KEYWORD": 4})
+            base_rc = st.new("RenderableMeta", {"cid": 7, "__name__": "BaseRenderCls", "Args": None, "_ALL_DEFAULT_ARGS": st.new("dict", {"@items": {}})})
+            base_fields_map = st.new("dict", {"@items": ({"x": 0} if base_fields else {})})
+            base = st.new("nsclass", {"_FIELDS": base_fields_map, "_associated": base_assoc, "_RENDER_CLS": base_rc if base_assoc else None, "__name__": "Base"})
+            bases = (base,) if n_bases == 1 else (base, st.new("nsclass", {"_FIELDS": st.new("dict", {"@items": {}}), "_associated": False, "__name__": "Other"}))
+            fields = ("a", "b") if own else ()
+            items = {}
+            if own:
+                items["__annotations__"] = fields
+                items["a"] = 1
+                if all_defaults:
+                    items["b"] = 2
+            namespace = st.new("dict", {"@items": items})
+            prior = st.new("nsclass", {"__name__": "PriorArgs"})
+            rcv = {"none": None, "not-a-class": 5,
+                   "fresh": st.new("RenderableMeta", {"cid": 9, "__name__": "Target", "Args": None, "_ALL_DEFAULT_ARGS": st.new("dict", {"@items": {}})}),
+                   "has-args": st.new("RenderableMeta", {"cid": 9, "__name__": "Target", "Args": prior, "_ALL_DEFAULT_ARGS": st.new("dict", {"@items": {}})})}[rc]
+            kwargs = st.new("dict", {"@items": ({"render_cls": rcv} if rc != "none" else {})})
+            data_new = inline(ctx.fn(TY, "ArgsDataNamespaceMeta.__new__"), eng)
+            created = []
+
+            def type_new(e, s, a, k):
+                mcls, name_, bases_, ns_ = a[:4]
+                if k:
+                    raise Unsupported("keyword arguments reaching type.__new__")
+                s = e.fork(s)
+                own_items = dict(s.H(ns_)["@items"])
+                attrs = {}
+                for b_ in reversed(bases_):           # inherited class attributes (single inheritance is what is accepted)
+                    attrs.update({k_: v_ for k_, v_ in s.H(b_).items() if k_ in ("_FIELDS", "_associated", "_RENDER_CLS")})
+                attrs.update(own_items)
+                attrs["__dict__"] = s.new("dict", {"@items": own_items})
+                attrs["__qualname__"] = name_
+                attrs["__name__"] = name_
+                attrs["__new__"] = attrs["__init__"] = Opaque("method")
+                c = s.new("nsclass", attrs)
+                s.ghost["created"] = s.ghost.get("created", []) + [c]
+                return [(c, s)]
+
+            def super_(e, s, a, k):
+                return [(Rec("super", {"level": s.ghost.get("level", 0)}), s)]
+            eng.genv["super"] = Fn(super_)
+
+            def super_new(e, s, v):
+                if v.f["level"] == 0:
+                    def call_data_new(e2, s2, a2, k2):
+                        s2 = e2.fork(s2)
+                        s2.ghost["level"] = 1
+                        outs = e2.call(data_new, tuple(a2), k2, s2)
+                        res = []
+                        for val, s3 in outs:
+                            s3 = e2.fork(s3)
+                            s3.ghost["level"] = 0
+                            res.append((val, s3))
+                        return res
+                    return [(Fn(call_data_new), s)]
+                return [(Fn(type_new), s)]
+            eng.attrs[("super", "__new__")] = super_new
+            eng.methods[("nsclass", "__call__")] = lambda e, s, recv, a, k: [(Rec("instance", {"of": recv}), s)]
+            st.env.update(cls=ClassV("ArgsNamespaceMeta"), name="NewArgs", bases=bases, namespace=namespace, _base=False, kwargs=kwargs)
+            outs = run_function(eng, ctx.fn(TY, "ArgsNamespaceMeta.__new__"), st)
+            # the documented rules
+            valid = (n_bases == 1 and not (base_fields and own) and all_defaults
+                     and (rc == "none" and not own or rc == "fresh" and own and not base_assoc))
+            for kind, val, s in outs:
+                if kind == "raise":
+                    eng.oblige(f"rejected({val.cls})-only-when-a-rule-is-broken", s, And(not valid, eng.issubclass(val.cls, "RenderArgsDataError") or val.cls == "TypeError"), kind="raise")
+                    eng.oblige("a-rejected-definition-leaves-the-render-class-untouched", s,
+                               (not isinstance(rcv, Ref)) or (s.H(rcv)["Args"] is (prior if rc == "has-args" else None)), kind="raise")
+                    continue
+                eng.oblige("accepted-only-when-every-rule-is-kept(single-base,defaults-for-all-fields,no-re-association,fields-iff-associated)", s, valid, kind="post")
+                if valid and isinstance(val, Ref):
+                    h = s.H(val)
+                    if rc == "fresh":
+                        okf = isinstance(h.get("_FIELDS"), Ref) and s.H(h["_FIELDS"]).get("@items") == {"a": 1, "b": 2}
+                        eng.oblige("association-recorded-on-both-classes;fields-with-their-defaults", s,
+                                   And(h.get("_associated") is True, h.get("_RENDER_CLS") is rcv, s.H(rcv)["Args"] is val, okf), kind="post")
+                    else:
+                        eng.oblige("unassociated-subclass-stays-unassociated", s, And(h.get("_associated") is base_assoc, s.H(base_rc)["Args"] is None), kind="post")
+            obs += eng.obligations
+        return obs
+    return u
+
+
+ns_class_unit()
